@@ -108,6 +108,9 @@ CFGS = [C.cfg("commonmark"), C.cfg("js-default", {"linkify": True}, linkify="stu
         C.cfg("commonmark", {"html": False, "linkify": True}, enable=["linkify"], linkify="stub"),
         C.cfg("js-default", {"html": True})]
 PRODUCER_RULES = ["link", "image", "autolink", "linkify", "reference"]
+# the python-only options that touch reference definitions: explored on the producers that go through a definition
+CFG_PYOPTS = C.cfg("commonmark", {"inline_definitions": True, "store_labels": True})
+REF_PRODUCERS = [p for p in PRODUCERS if "[r]:" in p] + ["![x][r]\n\n[r]: <{U}>\n"]
 
 
 def bounds(tier):
@@ -116,7 +119,8 @@ def bounds(tier):
             "respelled": "<=3 for words of <=5 chars, else <=2" if th else "<=2 for words of <=11 chars, else <=1",
             "inserted": "<=1, combined with <=1 re-spelling" if th else "<=1, combined with 0 re-spellings",
             "insert_alphabet": INSERT, "prefixes": PREFIX if th else [PREFIX[i] for i in QUICK_PREFIX],
-            "producers": PRODUCERS, "configs": CFGS if th else CFGS[:2], "url_atoms": URL_ATOMS, "L_url": 3,
+            "producers": PRODUCERS, "configs": CFGS if th else CFGS[:2],
+            "reference_producers_also_under": CFG_PYOPTS, "url_atoms": URL_ATOMS, "L_url": 3,
             "url_parts": {"scheme": U_SCHEME, "slashes": U_SLASH, "userinfo": U_USER, "host": U_HOST, "path": U_PATH,
                           "query": U_QUERY, "fragment": U_FRAG}}
 
@@ -279,6 +283,7 @@ def _iter(sh):
 
 def run_shard(sh, acc):
     mds = [(c, C.build(c)) for c in CFGS[:sh[-1]]]
+    pyo = C.build(CFG_PYOPTS)
     first = True
     for u in _iter(sh):
         acc.case()
@@ -297,3 +302,9 @@ def run_shard(sh, acc):
                 r = _one(md, c, src, acc)
                 if r:
                     acc.violation(sh[0], _cls(r), {"cfg": c, "src": src}, r)
+        for p in REF_PRODUCERS:
+            src = p.replace("{U}", u)
+            acc.case()
+            r = _one(pyo, CFG_PYOPTS, src, acc)
+            if r:
+                acc.violation(sh[0], _cls(r), {"cfg": CFG_PYOPTS, "src": src}, r)
